@@ -314,7 +314,9 @@ func (c *columnKey) Apply(chunk commit.Chunk, r *commit.Reader) {
 		case commit.Delete:
 			fill.Remove(uint32(offset))
 			c.lock.Lock()
-			delete(c.seek, string(data[offset]))
+			if at, ok := c.seek[data[offset]]; ok && at == uint32(r.Offset) {
+				delete(c.seek, data[offset]) // a key that resolves to another row stays
+			}
 			c.lock.Unlock()
 		}
 	}
